@@ -141,6 +141,20 @@ def run(res, tier, seed, replay):
         ("ban=7", [("main.jst", J + "URL\nINCLUDE missing.jst\n")], "main.jst", len(J)),
         ("ban=8", [("main.jst", J + "URL /a\n  GET x y z\n")], "main.jst", len(J + "URL /a\n  ")),
         ("ban=15", [("main.jst", J + "GET /a\n  200 any any\n")], "main.jst", len(J + "GET /a\n  ")),
+        # the kinds that never reach the catalog builder (MACRO, PASTE) and directives of a never-pasted macro, in an INCLUDED
+        # file (one and two levels down): refused where they are read, in that file
+        ("ban=21", [("main.jst", J + "GET /a\n  200 any\nINCLUDE x.jst\n"), ("x.jst", "MACRO @m\n(\n  404 any\n)\n")], "x.jst", 0),
+        ("ban=22", [("main.jst", J + "MACRO @m\n(\n  404 any\n)\nGET /a\n  200 any\n  INCLUDE x.jst\n"), ("x.jst", "PASTE @m\n")], "x.jst", 0),
+        ("ban=22", [("main.jst", J + "GET /a\n  200 any\n  INCLUDE x.jst\n"), ("x.jst", "PASTE @nowhere\n")], "x.jst", 0),
+        ("ban=15", [("main.jst", J + "TYPE @q\n{}\nINCLUDE x.jst\n"), ("x.jst", "MACRO @never\n(\n  200 any\n)\n")], "x.jst", len("MACRO @never\n(\n  ")),
+        ("ban=17", [("main.jst", J + "GET /a\n  404 any\nINCLUDE d/x.jst\n"), ("d/x.jst", "INCLUDE y.jst\n"), ("d/y.jst", "MACRO @never\n(\n  Headers\n    {}\n)\n")],
+         "d/y.jst", len("MACRO @never\n(\n  ")),
+        ("ban=21", [("main.jst", J + "INCLUDE d/x.jst\nGET /a\n  200 any\n"), ("d/x.jst", "INCLUDE y.jst\n"), ("d/y.jst", "TYPE @t\n{}\nMACRO @m\n(\n  404 any\n)\n")],
+         "d/y.jst", len("TYPE @t\n{}\n")),
+        # another fault later in the project does not win over the ban
+        ("ban=17", [("main.jst", J + "MACRO @never\n(\n  Headers\n    {}\n)\nGET /a\n  PASTE @nowhere\n")], "main.jst", len(J + "MACRO @never\n(\n  ")),
+        ("ban=19", [("main.jst", J + "TYPE @a\n{}\nTYPE @a\n{}\n")], "main.jst", len(J)),
+        ("ban=28", [("main.jst", J + "INCLUDE x.jst\nINCLUDE missing.jst\n"), ("x.jst", "TAG @t\n")], "x.jst", 0),
     ]
     outs = C.run_lines("harness", "fn", [P.run_line(o, pj) for o, pj, _, _ in special])
     res.count(len(special))
